@@ -21,6 +21,7 @@ import glob
 import os
 import re
 import subprocess
+import time
 
 import lib
 
@@ -31,7 +32,7 @@ META = dict(
              "(induction on the chain), and over ALL schedules of any number of threads of a transition system whose "
              "atomic actions are the critical sections of the Go methods: lock_exclusive (nothing of another thread "
              "touches a scope between LockData and Commit), no_lost_update (n x k locked increments, with plain "
-             "traffic, end at n*k), get_or_create_once (all callers obtain one instance).  Model tied to /repo on "
+             "traffic, end at n*k; the sections never deadlock and every execution is finite), get_or_create_once (all callers obtain one instance).  Model tied to /repo on "
              "every run by a differential over random histories (including which calls block) and by a go/ast "
              "skeleton of each method checked against the model's assumptions inside Lean.",
         design_ref="DESIGN.md 3 C13"),
@@ -84,7 +85,7 @@ def _run_model(ctx, model, ops, tag):
     return res
 
 
-def _run_impl(ctx, go, hops, tag, shards=1):
+def _run_impl(ctx, go, hops, tag, shards=1, fast=False):
     """run the hinted ops on the real code, split at `reset` boundaries into parallel shards"""
     cases, cur = [], []
     for l in hops:
@@ -99,6 +100,8 @@ def _run_impl(ctx, go, hops, tag, shards=1):
     procs = []
     env = ctx.goenv()
     env.setdefault("GOMEMLIMIT", "4GiB")
+    if fast:
+        env["DS_MUSTFINISH_MS"] = "1500"   # only while minimising an already failing case
     for i in range(shards):
         part = [l for c in cases[i * per:(i + 1) * per] for l in c]
         if not part:
@@ -122,9 +125,9 @@ def _run_impl(ctx, go, hops, tag, shards=1):
     return res
 
 
-def _pair(ctx, go, model, ops, tag, shards=1):
+def _pair(ctx, go, model, ops, tag, shards=1, fast=False):
     mres = _run_model(ctx, model, ops, tag)
-    ires = _run_impl(ctx, go, _hints(ops, mres), tag, shards)
+    ires = _run_impl(ctx, go, _hints(ops, mres), tag, shards, fast)
     return mres, ires
 
 
@@ -203,10 +206,15 @@ def _oracle(ctx, binary, n, tag, race=False):
 def run(ctx):
     go = ctx.build_go("datascope")
     _write_extracted(ctx, go)
-    failed = ctx.lean_obligations(extra_modules=[TIE])
+    # two builds, so that a broken structural tie is reported by the name of its tie_* theorem and does not
+    # drag the (unchanged) property theorems with it; the second call returns all failures so far
+    ctx.lean_obligations()
+    failed = ctx.lean_obligations(props_module=TIE)
+    ctx.checker_cmd = ("cd /verif/lean && lake build Goat.Props.C13 %s && lake env lean <generated audit: "
+                       "#print axioms for every theorem of both modules>" % TIE)
     model = ctx.build_model("m_datascope")
     go_race = ctx.build_go("datascope", race=True)
-    ncases = ctx.pick(1500, 40000)
+    ncases = ctx.pick(4000, 150000)
     ctx.rule = ("corpus/C13/*.ops first, then %d generated cases from VERIF_SEED: a forest of 2..10 scopes of depth <= 5 "
                 "(chain / random tree / bushy), 20..60 ops over set/get/keys/lock/lset/lget/lkeys/llock/commit with keys "
                 "from {1,2,3} (+ rare 4..6), values 0..9 or nil, so that shadowing, stored nils, fall-back through several "
@@ -256,11 +264,15 @@ def run(ctx):
             firsts.append((i, o, a, b))
     ctx.extra["differing_cases"] = len(firsts)
     concrete_found = False
-    for i, o, a, b in firsts[:3]:
+    for i, o, a, b in firsts[:2]:
         case, _ = _case_of(ops, i)
 
+        deadline = time.time() + 15
+
         def still_fails(lines):
-            m, im = _pair(ctx, go, model, lines, "dd")
+            if time.time() > deadline:      # minimisation budget used up: keep what we have
+                return False
+            m, im = _pair(ctx, go, model, lines, "dd", fast=True)
             return any(x != y for x, y in zip(m, im))
         small = ctx.ddmin(case, still_fails, keep_prefix=1) if len(case) <= 400 else case
         m, im = _pair(ctx, go, model, small, "dd")
@@ -279,21 +291,21 @@ def run(ctx):
                                                       ["model: " + m[j], "impl: " + im[j]]), concrete=conc)
     # --- the property's clauses on the implementation alone
     deep = bool(firsts) or bool(failed)
-    n_or = ctx.pick(300, 6000) * (4 if deep and ctx.quick() else 1)
+    n_or = ctx.pick(600, 15000) * (4 if deep and ctx.quick() else 1)
     ofails, _ = _oracle(ctx, go, n_or, "oracle")
-    rfails, races = _oracle(ctx, go_race, ctx.pick(40, 600), "oracle_race", race=True)
+    rfails, races = _oracle(ctx, go_race, ctx.pick(40, 1200), "oracle_race", race=True)
     for f in (ofails + rfails)[:3]:
         parts = f.split(" ", 2)
         concrete_found = True
         ctx.violation("impl-vs-spec", "clause '%s' of the property fails on the implementation: %s" % (
             parts[1], parts[2] if len(parts) > 2 else ""),
-            lines=["oracle %d seed %d%s" % (n_or if f in ofails else ctx.pick(40, 600), ctx.seed, "" if f in ofails else " race")],
+            lines=["oracle %d seed %d%s" % (n_or if f in ofails else ctx.pick(40, 1200), ctx.seed, "" if f in ofails else " race")],
             annotations=["oracle: " + f], concrete=True)
     for b in races[:2]:
         concrete_found = True
         ctx.violation("impl-vs-spec", "the race detector reports an unsynchronised access inside datascope while the oracle's "
                       "locked sections and plain traffic run (an access took effect without the scope's mutex)",
-                      lines=["oracle %d seed %d race" % (ctx.pick(40, 600), ctx.seed)],
+                      lines=["oracle %d seed %d race" % (ctx.pick(40, 1200), ctx.seed)],
                       annotations=["race: " + l for l in b.split("\n")[:24]], concrete=True)
     if failed:
         ctx.obligation_violations(failed, searcher=lambda: concrete_found)
